@@ -61,9 +61,12 @@ G7 == {x \in [g : {"nest"}, outer : 1..3, inner : 1..3, sig : {"break", "continu
 G8 == [g : {"cycnest"}, outer : 1..3, len : 1..L, nvals : 2..3, grouped : BOOLEAN]
 \* break / continue inside tablerow: the cell of the item is still closed (and its row, when it ends there)
 \* (a break in the middle of a row leaves the row open: what follows is not decided, such cases are not generated)
+\* two cycle tags of one group (or both ungrouped) with lists of different lengths: one position per loop and group,
+\* each tag emits the entry of its own list at that position
+G10 == [g : {"cycmix"}, len : 1..L, n1 : 1..3, n2 : 1..3, grouped : BOOLEAN]
 G9 == {x \in [g : {"rowsig"}, len : 1..4, cols : {None, 1, 2, 3}, at : 1..4, sig : {"break", "continue"}] :
          x.at <= x.len /\ (x.sig = "continue" \/ x.at = x.len \/ (x.cols # None /\ x.at % x.cols = 0))}
-Cases == G1 \cup G2 \cup G3 \cup G4 \cup G5 \cup G6 \cup G7 \cup G8 \cup G9
+Cases == G1 \cup G2 \cup G3 \cup G4 \cup G5 \cup G6 \cup G7 \cup G8 \cup G9 \cup G10
 
 \* a modifier is written as a literal or as a variable holding the number
 OV == <<111, 102>>
@@ -112,6 +115,11 @@ ProgOf(x) ==
                  body |-> <<cyc>> \o (IF x.twice THEN <<cyc>> ELSE <<>>) \o (IF x.grouped THEN <<other>> ELSE <<>>)],
                 \* a second loop starts its cycles afresh
                 [t |-> "for", tag |-> "for", var |-> X, coll |-> Var(A), lim |-> Lit(IntV(2)), body |-> <<cyc>>] >>
+    [] x.g = "cycmix" ->
+         LET grp == IF x.grouped THEN [group |-> <<103>>] ELSE <<>>
+             UVals == << <<117>>, <<118>>, <<119>> >>
+         IN  << [t |-> "for", tag |-> "for", var |-> X, coll |-> Var(A),
+                 body |-> << [t |-> "cycle", vals |-> SubSeq(CycVals, 1, x.n1)] @@ grp, [t |-> "cycle", vals |-> SubSeq(UVals, 1, x.n2)] @@ grp, T(<<32>>) >>] >>
     [] x.g = "cycnest" ->
          << [t |-> "for", tag |-> "for", var |-> Y, coll |-> [t |-> "range", a |-> Lit(IntV(1)), b |-> Lit(IntV(x.outer))],
              body |-> << [t |-> "for", tag |-> "for", var |-> X, coll |-> Var(A),
@@ -131,7 +139,7 @@ MapN(n) == MapV([i \in 1..n |-> << <<106 + i>>, IntV(i) >>])        \* keys k, l
 EnvOf2(x) ==
   CASE x.g = "grid" /\ x.asvar -> << <<A, Arr(Ints(x.len))>>, <<X, Str(<<111>>)>>, <<OV, IntV(IF x.off = None THEN 0 ELSE x.off)>>, <<LV, IntV(IF x.lim = None THEN 0 ELSE x.lim)>> >>
     [] x.g = "range" /\ x.asvar -> << <<OV, IntV(x.lo)>>, <<<<104, 105>>, IntV(x.hi)>> >>
-    [] x.g \in {"grid", "signal", "tablerow", "cycle", "cycnest", "rowsig"} -> << <<A, Arr(Ints(x.len))>>, <<X, Str(<<111>>)>> >>
+    [] x.g \in {"grid", "signal", "tablerow", "cycle", "cycnest", "rowsig", "cycmix"} -> << <<A, Arr(Ints(x.len))>>, <<X, Str(<<111>>)>> >>
     [] x.g = "coll" -> (CASE x.coll = "nil" -> << <<A, Nil>> >>
                           [] x.coll = "undef" -> <<>>
                           [] x.coll = "empty" -> << <<A, Arr(<<>>)>> >>
@@ -197,6 +205,9 @@ DeclOut(x) ==
                         \o (IF x.grouped THEN (IF k % 2 = 1 THEN <<117>> ELSE <<118>>) ELSE <<>>)
              n2 == IF x.len < 2 THEN x.len ELSE 2
          IN  Flatten([k \in 1..x.len |-> iter(k)]) \o Flatten([k \in 1..n2 |-> CycVals[((k - 1) % x.nvals) + 1]])
+    [] x.g = "cycmix" ->
+         LET UVals == << <<117>>, <<118>>, <<119>> >>
+         IN  Flatten([k \in 1..x.len |-> CycVals[((2 * (k - 1)) % x.n1) + 1] \o UVals[((2 * (k - 1) + 1) % x.n2) + 1] \o <<32>>])
     [] x.g = "cycnest" ->
          Flatten([o \in 1..x.outer |-> Flatten([k \in 1..x.len |-> CycVals[((k - 1) % x.nvals) + 1]]) \o <<124>>])
     [] x.g = "nest" ->
@@ -246,6 +257,7 @@ IdOf(x) ==
     [] x.g = "rowsig" -> "rowsig-" \o ToString(x.len) \o "-" \o ToString(x.cols) \o "-" \o ToString(x.at) \o "-" \o x.sig
     [] x.g = "coll" -> "coll-" \o x.coll
     [] x.g = "cycle" -> "cyc-" \o ToString(x.len) \o "-" \o ToString(x.nvals) \o "-" \o ToString(x.grouped) \o "-" \o ToString(x.twice)
+    [] x.g = "cycmix" -> "cycmix-" \o ToString(x.len) \o "-" \o ToString(x.n1) \o "-" \o ToString(x.n2) \o "-" \o ToString(x.grouped)
     [] x.g = "cycnest" -> "cycnest-" \o ToString(x.outer) \o "-" \o ToString(x.len) \o "-" \o ToString(x.nvals) \o "-" \o ToString(x.grouped)
     [] x.g = "nest" -> "nest-" \o ToString(x.outer) \o "-" \o ToString(x.inner) \o "-" \o x.sig \o "-" \o ToString(x.at)
 
